@@ -218,11 +218,23 @@ def _gen_ops(w, tags, depth, budget, allow_fault_free=True):
 def gen(S, tier):
     c = S("config")
     extra = [["s%d" % i, _style_spec(c)] for i in range(c.randint(0, 3))]
+    idx0 = getattr(S, "index", None)
+    if idx0 is not None and (idx0 // 12800) % 3 == 0:
+        k0 = idx0 % 12800
+        extra.append(["tbl", [COLORS[k0 % 10], COLORS[(k0 // 10) % 10], [a for j, a in enumerate(ATTRS) if (k0 // 100) >> j & 1]]])
     cfg = {"extra_styles": extra, "plain_kind": c.pick(["nonansi_stream", "plain_formatter"]),
            "default_set": c.chance(0.7)}
     tags = [t for t, _ in extra] + (list(DEFAULT_TAGS) if cfg["default_set"] else ["info", "comment", "error", "question"])
     w = S("workload")
     ops = _gen_ops(w, tags, 0, [30])
+    # the whole style table (10 x 10 x 2^7 = 12800 styles) is spread over the runs of a batch, once
+    # through each of the three ways of supplying a style: run i probes style i mod 12800
+    idx = getattr(S, "index", None)
+    if idx is not None:
+        k = idx % 12800
+        spec = [COLORS[k % 10], COLORS[(k // 10) % 10], [a for j, a in enumerate(ATTRS) if (k // 100) >> j & 1]]
+        way = ["registered_fresh", "added", "single"][(idx // 12800) % 3]
+        ops.insert(w.randint(0, len(ops)), ["probe", way, spec, "table", 0])
     f = S("faults")
     faults = {"out": [], "err": []}
     if f.chance(0.3):
@@ -467,7 +479,19 @@ def _run_twin(sc, tw, res, count_probes):
             elif k == "probe":
                 _, way, spec, text, pick = op
                 expect = _codes(spec)
-                if way == "registered":
+                if way == "registered_fresh":
+                    # registered under the tag "tbl" when the formatter was constructed
+                    if "tbl" not in registered:
+                        continue
+                    expect = _codes(registered["tbl"])
+                    mk = tw.mark()
+                    tw.io.output.write("<tbl>%s</tbl>" % text)
+                    got = tw.since(mk, "out")
+                    way = "registered"
+                    if count_probes:
+                        res.probe("style_registered")
+                        res.probe("style_table_entry")
+                elif way == "registered":
                     if not registered:
                         continue
                     tag = sorted(registered)[pick % len(registered)]
